@@ -11,7 +11,8 @@ YEAR = 365 * DAY
 
 
 def far_future_off():
-    return int(datetime.datetime(9999, 12, 31, 23, 59, 59, tzinfo=datetime.timezone.utc).timestamp() - time.time())
+    # midnight, not 23:59:59: the offset is applied to the probe's own clock a moment later and must not cross into year 10000
+    return int(datetime.datetime(9999, 12, 31, 0, 0, 0, tzinfo=datetime.timezone.utc).timestamp() - time.time())
 
 
 NOT_AFTER = [("-10y", -10 * YEAR), ("-1d", -DAY), ("-60s", -60), ("+60s", 60), ("+1h", 3600), ("+29d", 29 * DAY), ("+30d-60s", 30 * DAY - 60),
@@ -93,13 +94,8 @@ def judge(req, obs):
                     break
                 continue
             if "err" in d:
-                # A scheduling error makes the daemon warn and look again later (1 min .. 1 day): nothing is requested.
-                # That cannot be late while the due date is out of reach (OpenSSL 3.5 refuses to diff 9999-12-31);
-                # for anything due within 1000 years an error is a violation.
-                if m["off"] - m["rd"][1] < 1000 * YEAR:
-                    add("schedule", ctx, "a delay", "error %s" % d["err"])
-                    break
-                continue
+                add("schedule", ctx, "a delay", "error %s" % d["err"])
+                break
             base = max(0, m["off"] - m["rd"][1])
             lo = max(0, base - m["rer"][1]) - 3
             hi = base + 3
